@@ -53,6 +53,7 @@ CASES = [
  ("C18", "pipeline/_impl.py", "c_opts = options if seed is None else replace(options, rng=seed.spawn(1)[0])", "c_opts = options if not seed else replace(options, rng=seed.spawn(1)[0])", "break"),
  ("C11", "random.py", "    if seed is None and _global_rng is not None:\n        return _global_rng", "    if not seed and _global_rng is not None:\n        return _global_rng", "break"),
  ("C11", "random.py", "    if seed is None and _global_rng is not None:\n        return _global_rng", "    if _global_rng is not None and seed is None:\n        return _global_rng", "keep"),
+ ("C13", "pipeline/builder.py", "        cfg.aliases = {a: t.name for (a, t) in sorted(self._aliases.items(), key=lambda kv: kv[0])}", "        cfg.aliases = {a: t.name for (a, t) in sorted(self._aliases.items(), key=lambda kv: kv[1].name)}", "break"),
  ("C13", "pipeline/builder.py", "                    if iname not in c_ins and iname in self._default_connections:", "                    if iname in self._default_connections:", "break"),
  ("C13", "pipeline/builder.py", "                    if iname not in c_ins and iname in self._default_connections:", "                    if iname in self._default_connections and iname not in c_ins:", "keep"),
  ("C13", "pipeline/builder.py", "            if h2 != cfg.meta.hash:\n                _log.warning", "            if h2 == cfg.meta.hash:\n                _log.warning", "break"),
